@@ -115,7 +115,11 @@ def run_case(case, ctx):
     else:
         m = DecisionTreeLogisticRegression(estimator=est, **params)
     w = rng.rand(len(X)) + 0.5 if weighted else None
-    Xin = pandas.DataFrame(X, columns=["f%d" % i for i in range(X.shape[1])]) if frame else X
+    from vrt import layouts
+    lay = layouts.pick(sub, 5)
+    cfg["layout"] = lay
+    ctx.cls("layout=" + lay)
+    Xin = pandas.DataFrame(X, columns=["f%d" % i for i in range(X.shape[1])]) if frame else layouts.relayout(X, lay)
     yin = y
     if frame and sub % 2:
         # a frame and a target Series that share a permuted index (rows of df.sample(frac=1))
